@@ -133,8 +133,15 @@ static MPT_STRUCT(buffer) *_mpt_buffer_alloc_detach(MPT_STRUCT(buffer) *ptr, siz
 	/* require content copy */
 	if (mpt_refcount_lower(&buf->_ref)) {
 		const MPT_STRUCT(buffer) *src = &buf->buf;
-		if (mpt_buffer_set(next, src->_content_traits, 0, src + 1, src->_used) < 0) {
+		size_t add = src->_used;
+		/* smaller target keeps leading data only */
+		if (add > len) {
+			add = len;
+		}
+		if (mpt_buffer_set(next, src->_content_traits, 0, src + 1, add) < 0) {
 			_mpt_buffer_alloc_unref(next);
+			/* caller keeps its reference to the shared data */
+			mpt_refcount_raise(&buf->_ref);
 			return 0;
 		}
 	}
